@@ -264,7 +264,7 @@ func (in *Interp) runFrame(fr *frame) {
 		}
 		r := recover()
 		switch r.(type) {
-		case unsupported, pathEnd, internalAbort, killSignal, blockedSignal:
+		case unsupported, pathEnd, internalAbort, killSignal, blockedSignal, coKilled:
 			panic(r) // engine control flow: not visible to the program (a kill runs no deferred calls)
 		}
 		if s, ok := r.(string); ok {
@@ -333,7 +333,7 @@ func (fr *frame) runDefer(d *deferred) {
 		if !ok {
 			r := recover()
 			switch r.(type) {
-			case unsupported, pathEnd, internalAbort, killSignal, blockedSignal:
+			case unsupported, pathEnd, internalAbort, killSignal, blockedSignal, coKilled:
 				panic(r)
 			}
 			fr.panicking = true
